@@ -134,6 +134,30 @@ class EnumerateIt(It):
         r = [BV64(self.n), x]; self.n += 1; return r
 
 
+class ZipIt(It):
+    def __init__(self, a, b): self.a, self.b = a, b
+    def next(self, M):
+        x = it_next(M, self.a)
+        if x is None: return None
+        y = it_next(M, self.b)
+        if y is None: return None
+        return [x, y]
+
+
+class CountIt(It):
+    """RangeFrom { start }"""
+    def __init__(self, start): self.cur = start
+    def next(self, M):
+        v = self.cur; self.cur = z3.simplify(v + 1); return v
+
+
+class RevIt(It):
+    def __init__(self, items): self.items, self.i = list(reversed(items)), 0
+    def next(self, M):
+        if self.i >= len(self.items): return None
+        v = self.items[self.i]; self.i += 1; return v
+
+
 class ClonedIt(It):
     def __init__(self, inner): self.inner = inner
     def next(self, M):
@@ -181,6 +205,7 @@ def to_iter(M, v):
         if z3.is_bv_value(z3.simplify(tobv64(v.len))): return IntoIt(v.elems[:M.concrete(v.len)])
         return LazyIntoIt(v)
     if isinstance(v, list) and len(v) == 2 and z3.is_bv(v[0]) and z3.is_bv(v[1]): return v     # Range
+    if isinstance(v, list) and len(v) == 1 and z3.is_bv(v[0]): return CountIt(v[0])             # RangeFrom
     if isinstance(v, list): return IntoIt(v)
     if isinstance(v, ValSlice): return SeqIt(v)
     if isinstance(v, EnumV) and v.enum == 'Option':
@@ -215,6 +240,8 @@ def m_iter_chain(M, a, c, fr): return ChainIt(to_iter(M, a[0]), to_iter(M, a[1])
 def m_iter_enumerate(M, a, c, fr): return EnumerateIt(to_iter(M, a[0]))
 def m_iter_cloned(M, a, c, fr): return ClonedIt(to_iter(M, a[0]))
 def m_once(M, a, c, fr): return OnceIt(a[0])
+def m_iter_zip(M, a, c, fr): return ZipIt(to_iter(M, a[0]), to_iter(M, a[1]))
+def m_iter_rev(M, a, c, fr): return RevIt(drain(M, to_iter(M, a[0])))
 
 
 def drain(M, it):
@@ -454,6 +481,45 @@ def m_opt_is_some(M, a, c, fr):
 def m_opt_is_none(M, a, c, fr): return z3.Not(m_opt_is_some(M, a, c, fr))
 
 
+def m_opt_take(M, a, c, fr):
+    o = M.load(a[0]); M.store(a[0], opt_none()); return o
+
+
+def m_opt_get_or_insert_with(M, a, c, fr):
+    o = M.load(a[0])
+    if not is_variant(M, o, 1, 'Option::get_or_insert_with'):
+        M.store(a[0], opt_some(M.call_value(a[1], [])))
+    return Ref(a[0].cell, a[0].path + (('v', 1), 0))
+
+
+def m_opt_unwrap_or_default(M, a, c, fr):
+    o = a[0]
+    if is_variant(M, o, 1, 'Option::unwrap_or_default'): return payload(o, 1)[0]
+    raise Inconclusive('unwrap_or_default needs the Default value of ' + c)
+
+
+def m_opt_or(M, a, c, fr):
+    return a[0] if is_variant(M, a[0], 1, 'Option::or') else a[1]
+
+
+def m_opt_unwrap_or_else(M, a, c, fr):
+    o = a[0]
+    return payload(o, 1)[0] if is_variant(M, o, 1, 'Option::unwrap_or_else') else M.call_value(a[1], [])
+
+
+def m_opt_map_or_else(M, a, c, fr):
+    o = a[0]
+    return M.call_value(a[2], [payload(o, 1)[0]]) if is_variant(M, o, 1, 'Option::map_or_else') else M.call_value(a[1], [])
+
+
+def m_opt_eq(M, a, c, fr):
+    x, y = deref(M, a[0]), deref(M, a[1])
+    xs, ys = is_variant(M, x, 1, 'Option::eq.l'), is_variant(M, y, 1, 'Option::eq.r')
+    if xs != ys: return z3.BoolVal(False)
+    if not xs: return z3.BoolVal(True)
+    return M.val_eq(payload(x, 1)[0], payload(y, 1)[0])
+
+
 def m_opt_as_ref(M, a, c, fr):
     o = M.load(a[0])
     if is_variant(M, o, 1, 'Option::as_ref'): return opt_some(Ref(a[0].cell, a[0].path + (('v', 1), 0)))
@@ -607,6 +673,25 @@ def m_saturating_add(M, a, c, fr):
     return z3.If(z3.ULT(s, x), bv(2 ** x.size() - 1, x.size()), s)
 
 
+# ----------------------------------------------------------------------------- BTreeMap with concrete shape (bounded histories): list of (key, value object)
+class DictMap:
+    def __init__(self): self.entries = []
+    def find(self, M, key, label='map.lookup'):
+        for i, (k, v) in enumerate(self.entries):
+            if M.concrete_bool(M.val_eq(k, key), label): return i
+        return None
+    def ordered(self):
+        ks = [k for k, _ in self.entries]
+        if all(z3.is_bv_value(z3.simplify(k)) if z3.is_expr(k) else False for k in ks): return sorted(self.entries, key=lambda e: z3.simplify(e[0]).as_long())
+        return list(self.entries)
+
+
+def mapkey(k):
+    """key as stored: newtype-like keys ([scalar, None]) are unwrapped, everything else kept"""
+    try: return keyval(k)
+    except Inconclusive: return k
+
+
 # ----------------------------------------------------------------------------- BTreeMap as z3 arrays
 def keyval(k):
     """map key -> z3 term: newtype-like keys ([scalar, None]) are unwrapped"""
@@ -618,6 +703,7 @@ def keyval(k):
 
 
 def m_map_new(M, a, c, fr):
+    if M.aux.get('dictmaps'): return DictMap()
     mk = M.aux.get('new_map')
     if mk is not None:
         r = mk(M, c)
@@ -628,25 +714,37 @@ def m_map_new(M, a, c, fr):
 
 
 def m_map_entry(M, a, c, fr):
-    m = M.load(a[0]); key = keyval(a[1])
+    m = M.load(a[0])
+    if isinstance(m, DictMap):
+        key = mapkey(a[1]); i = m.find(M, key)
+        k = 1 if i is not None else 0
+        return EnumV('Entry', k, {k: [[a[0], key, i]]})
+    key = keyval(a[1])
     occ = M.concrete_bool(z3.Select(m.present, key), 'BTreeMap::entry')
     k = 1 if occ else 0
     return EnumV('Entry', k, {k: [[a[0], key]]})
 
 
 def m_vacant_insert(M, a, c, fr):
-    mref, key = a[0]; m = M.load(mref)
+    mref, key = a[0][0], a[0][1]; m = M.load(mref)
+    if isinstance(m, DictMap):
+        m.entries.append([key, a[1]]); return Ref(mref.cell, mref.path) if False else Ref(Cell(a[1]))
     M.store(mref, MapV(z3.Store(m.present, key, True), z3.Store(m.val, key, keyval(a[1])), m.extra))
     return Ref(Cell(a[1]))
 
 
 def m_occupied_get(M, a, c, fr):
-    mref, key = deref(M, a[0]); m = M.load(mref)
+    ent = deref(M, a[0]); mref, key = ent[0], ent[1]; m = M.load(mref)
+    if isinstance(m, DictMap): return Ref(Cell(m.entries[ent[2]][1]))
     return Ref(Cell(z3.Select(m.val, key)))
 
 
 def m_map_get(M, a, c, fr):
-    m = M.load(a[0]); key = keyval(deref(M, a[1]))
+    m = M.load(a[0])
+    if isinstance(m, DictMap):
+        i = m.find(M, mapkey(deref(M, a[1])))
+        return opt_none() if i is None else opt_some(Ref(Cell(m.entries[i][1])))
+    key = keyval(deref(M, a[1]))
     if M.concrete_bool(z3.Select(m.present, key), 'BTreeMap::get'):
         v = z3.Select(m.val, key)
         if m.extra is not None and 'unwrap_val' in m.extra: v = m.extra['unwrap_val'](v)
@@ -655,7 +753,14 @@ def m_map_get(M, a, c, fr):
 
 
 def m_map_insert(M, a, c, fr):
-    m = M.load(a[0]); key = keyval(a[1])
+    m = M.load(a[0])
+    if isinstance(m, DictMap):
+        key = mapkey(a[1]); i = m.find(M, key)
+        M.aux.setdefault('map_inserts', []).append((key, i is not None))
+        if i is None:
+            m.entries.append([key, a[2]]); return opt_none()
+        old = m.entries[i][1]; m.entries[i][1] = a[2]; return opt_some(old)
+    key = keyval(a[1])
     val = a[2]
     if m.extra is not None and 'wrap_val' in m.extra: val = m.extra['wrap_val'](M, val)
     was = M.concrete_bool(z3.Select(m.present, key), 'BTreeMap::insert')
@@ -690,6 +795,7 @@ def m_typeid_hash(M, a, c, fr):
 
 def m_ref_eq(M, a, c, fr):
     m = re.fullmatch(r'<&(?:mut )?(.+) as PartialEq(?:<&(?:mut )?(.+)>)?>::(eq|ne)', c)
+    if m is None: raise Inconclusive('reference equality ' + c)
     inner = m.group(1)
     x, y = M.load(a[0]), M.load(a[1])
     return M.call('<%s as PartialEq>::%s' % (inner, m.group(3)), [x, y], fr)
@@ -702,8 +808,44 @@ def m_into_via_from(M, a, c, fr):
     return M.call('<%s as From<%s>>::from' % (dst, src), a, fr)
 
 
+def m_map_len(M, a, c, fr):
+    m = deref(M, a[0])
+    if isinstance(m, DictMap): return BV64(len(m.entries))
+    raise Inconclusive('BTreeMap::len on an array-modelled map')
+
+
+def m_map_contains(M, a, c, fr):
+    m = M.load(a[0])
+    if isinstance(m, DictMap): return z3.BoolVal(m.find(M, mapkey(deref(M, a[1]))) is not None)
+    return z3.Select(m.present, keyval(deref(M, a[1])))
+
+
+def m_map_values(M, a, c, fr):
+    m = M.load(a[0])
+    if isinstance(m, DictMap): return IntoIt([Ref(Cell(v)) for _, v in m.ordered()])
+    raise Inconclusive('BTreeMap::values on an array-modelled map')
+
+
+def m_map_keys(M, a, c, fr):
+    m = M.load(a[0])
+    if isinstance(m, DictMap): return IntoIt([Ref(Cell(k)) for k, _ in m.ordered()])
+    raise Inconclusive('BTreeMap::keys on an array-modelled map')
+
+
+def m_collect_map(M, a, c, fr):
+    out = DictMap()
+    for kv in drain(M, to_iter(M, a[0])):
+        key = mapkey(kv[0]); i = out.find(M, key)
+        if i is None: out.entries.append([key, kv[1]])
+        else: out.entries[i][1] = kv[1]
+    return out
+
+
 def m_map_iter(M, a, c, fr):
     m = M.load(a[0])
+    if isinstance(m, DictMap):
+        def wrapk(k): return [k, None] if (z3.is_bv(k) and 'UntrackedSymbol' in c) else k
+        return IntoIt([[Ref(Cell(wrapk(k))), Ref(Cell(v))] for k, v in m.ordered()])
     if m.extra is None or 'keys' not in m.extra: raise Inconclusive('BTreeMap::iter on a map without a concrete key set')
     out = []
     for k in sorted(m.extra['keys']):
@@ -726,7 +868,8 @@ MODELS = [
     (r'<.* as Iterator>::filter::<.*>', m_iter_filter),
     (r'<.* as Iterator>::chain::<.*>', m_iter_chain),
     (r'<.* as Iterator>::enumerate', m_iter_enumerate),
-    (r'<.* as Iterator>::cloned::<.*>', m_iter_cloned),
+    (r'<.* as Iterator>::cloned::<.*>', m_iter_cloned), (r'<.* as Iterator>::copied::<.*>', m_iter_cloned),
+    (r'<.* as Iterator>::zip::<.*>', m_iter_zip), (r'<.* as Iterator>::rev', m_iter_rev),
     (r'<.* as Iterator>::collect::<Vec<.*>>', m_collect_vec),
     (r'<.* as Iterator>::all::<.*>', m_iter_all),
     (r'<.* as Iterator>::any::<.*>', m_iter_any),
@@ -753,12 +896,17 @@ MODELS = [
     (r"std::collections::btree_map::VacantEntry::<.*>::insert", m_vacant_insert),
     (r"std::collections::btree_map::OccupiedEntry::<.*>::get", m_occupied_get),
     (r'BTreeMap::<.*>::get::<.*>', m_map_get), (r'BTreeMap::<.*>::insert', m_map_insert), (r'BTreeMap::<.*>::iter', m_map_iter),
+    (r'BTreeMap::<.*>::len', m_map_len), (r'BTreeMap::<.*>::is_empty', lambda M, a, c, fr: m_map_len(M, a, c, fr) == BV64(0)), (r'BTreeMap::<.*>::contains_key::<.*>', m_map_contains),
+    (r'BTreeMap::<.*>::values', m_map_values), (r'BTreeMap::<.*>::keys', m_map_keys), (r'<.* as Iterator>::collect::<BTreeMap<.*>>', m_collect_map),
     # Option / Result
     (r'<(std::option::)?Option<.*> as Default>::default', lambda M, a, c, fr: opt_none()),
     (r'Option::<.*>::map::<.*>', m_opt_map), (r'Option::<.*>::map_or::<.*>', m_opt_map_or),
     (r'Option::<.*>::filter::<.*>', m_opt_filter), (r'Option::<.*>::and_then::<.*>', m_opt_and_then), (r'Option::<.*>::ok_or::<.*>', m_opt_ok_or), (r'Option::<.*>::copied', m_opt_copied),
     (r'Option::<.*>::unwrap_or', m_opt_unwrap_or), (r'Option::<.*>::cloned', m_opt_cloned),
-    (r'Option::<.*>::is_some', m_opt_is_some), (r'Option::<.*>::is_none', m_opt_is_none), (r'Option::<.*>::as_ref', m_opt_as_ref),
+    (r'Option::<.*>::is_some', m_opt_is_some), (r'Option::<.*>::is_none', m_opt_is_none), (r'Option::<.*>::as_(ref|mut|deref|deref_mut)', m_opt_as_ref),
+    (r'Option::<.*>::take', m_opt_take), (r'Option::<.*>::get_or_insert_with::<.*>', m_opt_get_or_insert_with), (r'Option::<.*>::or', m_opt_or),
+    (r'Option::<.*>::unwrap_or_else::<.*>', m_opt_unwrap_or_else), (r'Option::<.*>::map_or_else::<.*>', m_opt_map_or_else),
+    (r'<(std::option::)?Option<.*> as PartialEq>::eq', m_opt_eq),
     (r'Option::<.*>::(expect|unwrap)', m_opt_expect),
     (r'Result::<.*>::(expect|unwrap)', m_res_expect), (r'Result::<.*>::unwrap_or_else::<.*>', m_res_unwrap_or_else),
     (r'Result::<.*>::map_err::<.*>', m_res_map_err), (r'Result::<.*>::map::<.*>', m_res_map),
@@ -779,14 +927,20 @@ MODELS = [
     # TypeId
     (r'TypeId::of::<.*>', m_typeid_of), (r'<TypeId as PartialEq>::eq', m_typeid_eq), (r'<TypeId as Ord>::cmp', m_typeid_cmp),
     (r'<(TypeId|usize|u8|u16|u32|u64|u128|isize|i32|i64|bool|str|String) as Hash>::hash::<.*>', m_typeid_hash), (r'<TypeId as Clone>::clone', lambda M, a, c, fr: deref(M, a[0])),
-    (r'<&(mut )?(?!str)[A-Z][\w:]*(<.*>)? as PartialEq(<.*>)?>::(eq|ne)', m_ref_eq),
+    (r'<&(mut )?(?!str\b)[\w:]+(<.*>)? as PartialEq(<.*>)?>::(eq|ne)', m_ref_eq),
+    (r'<Vec<.*> as PartialEq>::(eq|ne)', lambda M, a, c, fr: (M.val_eq(deref(M, a[0]), deref(M, a[1])) if c.endswith('eq') else z3.Not(M.val_eq(deref(M, a[0]), deref(M, a[1]))))),
     # misc
+    (r'<[A-Z]\w? as PartialEq>::(eq|ne)', lambda M, a, c, fr: (M.val_eq(deref(M, a[0]), deref(M, a[1])) if c.endswith('eq') else z3.Not(M.val_eq(deref(M, a[0]), deref(M, a[1]))))),
     (r'<.+ as Into<.+>>::into', m_into_via_from),
     (r'<.* as Clone>::clone', m_clone),
     (r'(std|core)::mem::replace::<.*>', m_replace), (r'(std|core)::mem::take::<.*>', m_take),
     (r'<PhantomData<.*> as Default>::default', m_phantom_default),
     (r'core::panicking::panic(_fmt|_display|_explicit)?(::<.*>)?|panic_fmt|std::rt::begin_panic.*|core::panicking::\w+', m_panic),
     (r'core::num::<impl (usize|u32|u64)>::saturating_add', m_saturating_add),
+    (r'core::num::<impl (usize|u8|u16|u32|u64)>::wrapping_add', lambda M, a, c, fr: a[0] + a[1]), (r'core::num::<impl (usize|u8|u16|u32|u64)>::wrapping_sub', lambda M, a, c, fr: a[0] - a[1]),
+    (r'core::num::<impl (usize|u8|u16|u32|u64)>::to_le_bytes', lambda M, a, c, fr: [z3.simplify(z3.Extract(8 * i + 7, 8 * i, a[0])) for i in range(a[0].size() // 8)]),
+    (r'core::num::<impl (usize|u8|u16|u32|u64)>::checked_add', lambda M, a, c, fr: (opt_none() if not M.concrete_bool(z3.UGE(a[0] + a[1], a[0]), 'checked_add') else opt_some(a[0] + a[1]))),
+    (r'core::cmp::(min|max)::<.*>|std::cmp::(min|max)::<.*>', lambda M, a, c, fr: (z3.If(z3.ULE(a[0], a[1]), a[0], a[1]) if 'min' in c else z3.If(z3.UGE(a[0], a[1]), a[0], a[1]))),
     (r'core::fmt::rt::Argument::<.*>::new_(display|debug)::<.*>', lambda M, a, c, fr: ['fmt-arg', deref(M, a[0])]),
     (r'Arguments::<.*>::new(_const|_v1)?(::<.*>)?', lambda M, a, c, fr: ['fmt-args'] + [deref(M, x) for x in a]),
     (r'Formatter::<.*>::write_fmt', m_write_fmt),
